@@ -56,6 +56,8 @@ void disk_mkdirs(const std::string &dir);            // no-op on the simulated d
 // I/O call made by this thread is counted, faulted and (for writes) traced.
 void disk_begin_op(const FaultSpec &spec);
 OpStats disk_end_op(std::vector<WriteRec> *trace = nullptr);
+// vg variant: did the last writes hand an undefined byte to the OS? (file offset of the first one)
+bool disk_take_undefined_write(uint64_t *off);
 DiskTotals disk_totals();   // sum over all threads that ended ops
 void disk_reset_totals();
 
